@@ -269,13 +269,39 @@ def _cache(model, rep):
             p = getattr(p, '_parent', None)
         return p if isinstance(p, ast.If) else None
 
+    def loop_names(n, fn, var):
+        """values of loop variable ``var`` when the enclosing loop runs over a class-level tuple of names"""
+        p = getattr(n, '_parent', None)
+        while p is not None and p is not fn:
+            if isinstance(p, ast.For) and isinstance(p.target, ast.Name) and p.target.id == var:
+                d = dotted(p.iter) or ''
+                tup = parity.class_tuple(model, ci, d.split('.')[-1]) if d and d.split('.')[0] in ('self', 'cls') else None
+                return list(tup) if tup is not None else None
+            p = getattr(p, '_parent', None)
+        return None
+
     wifs = set()
+    unresolved = False
     for n in walk_local(w):
         if isinstance(n, ast.Call) and dotted(n.func) == 'vTKdict2arrays' and n.args:
-            a = unparse(n.args[0])
+            a0 = n.args[0]
+            a = unparse(a0)
             if a.startswith('self.') and a[5:] in caches:
                 wifs.add((a[5:], id(encl_if(n, w))))
+            elif isinstance(a0, ast.Call) and dotted(a0.func) == 'getattr' and len(a0.args) == 2 and unparse(a0.args[0]) == 'self' \
+                    and isinstance(a0.args[1], ast.Name):
+                names = loop_names(n, w, a0.args[1].id)
+                if names is None:
+                    unresolved = True
+                for nm in names or []:
+                    if nm in caches:
+                        wifs.add((nm, id(encl_if(n, w))))
+            else:
+                unresolved = True
     ok = {c for c, _ in wifs} == set(caches) and len({i for _, i in wifs}) == 1
+    if not ok and (unresolved or not wifs):
+        rep.undecided('VacancyMediated.addhdf5: the statements saving the three caches were not located')
+        ok = True
     rep.ob('cache-one-predicate', mod, w, 'addhdf5 saves %s under one predicate' % ', '.join(caches), ok,
            '' if ok else 'the three caches are not saved together: a reloaded object has inconsistent caches',
            engine='parity', qual='VacancyMediated.addhdf5')
@@ -300,6 +326,9 @@ def _cache(model, rep):
                 if isinstance(t, ast.Attribute) and t.attr in caches:
                     got.add(t.attr)
         reset = got == set(caches)
+    if not rifs:
+        rep.undecided('VacancyMediated.loadhdf5: the statements restoring the three caches were not located')
+        same = reset = True
     rep.ob('cache-one-predicate', mod, r, 'loadhdf5 restores the three caches under one predicate, else resets all three',
            same and reset, '' if same and reset else 'after reload some cache is missing or stale relative to the others',
            engine='parity', qual='VacancyMediated.loadhdf5')
@@ -413,6 +442,10 @@ def _yaml(model, rep):
                     and isinstance(n.targets[0].slice, ast.Constant):
                 keys.add(n.targets[0].slice.value)
         if ci.namedtuple_fields is not None:
+            # dict(zip(self._fields, self)) / self._asdict-like generic spellings enumerate the fields themselves
+            txt = unparse(ad).replace(' ', '')
+            if not keys and ('zip(self._fields,self)' in txt or 'zip(type(self)._fields,self)' in txt):
+                keys = set(ci.namedtuple_fields)
             ok = keys == set(ci.namedtuple_fields)
             rep.ob('yaml-tables', mod, ad, '%s._asdict keys %s = namedtuple fields %s' % (cname, sorted(keys), ci.namedtuple_fields),
                    ok, '' if ok else 'a field is dropped or misspelt in the YAML mapping', engine='tables')
